@@ -1,25 +1,23 @@
-import ChiProofs.Lemmas.MechConfigLegacy
+import ChiProofs.Lemmas.MechConfigCanon
 
 /-!
 # C11 — mechanistic model behaviour depends only on its final configuration; copies are independent
 
-Objects: `step legacy` is the state machine over the hidden state of `SBMLModel / PKPDModel /
-ReducedMechanisticModel` (`ChiModel/MechConfig.lean`; `legacy = true` is `set_administration` as the
-code has it, `legacy = false` the intended one), `applyCfg / net` the machine over the visible
-configuration with only the documented resets, `fresh c = build c` the object that has exactly the
-configuration `c`, `observe` = `parameters(), n_parameters(), outputs(), dosing_regimen(),
-has_sensitivities()` and the solver call record of a `simulate`.
+Objects (`ChiModel/MechConfig.lean`): `step` is the state machine over the hidden state of `SBMLModel /
+PKPDModel / ReducedMechanisticModel` — the code as it is (/repo at bcb3fc2 and later); `applyCfg / net` the
+machine over the visible configuration with only the documented resets; `fresh c = build c` the object that
+has exactly the configuration `c`; `observe` = `parameters(), n_parameters(), outputs(),
+dosing_regimen(), has_sensitivities()` and the solver call record of a `simulate`.  `stepLegacy` is the
+machine before bcb3fc2 (`set_administration` refreshed the name tables on the indirect route only and left
+the new solver without protocol).
 
-* full statement, all histories, intended transitions: `C11_net_config`, `C11_reported_regimen_applied`;
-* the code as it is: `C11_net_config_partial`, `C11_reported_regimen_applied_partial` for `WellOrdered`
-  histories (no `set_administration` after a regimen was set, no direct route after an indirect one, no
-  indirect route after names were assigned), one `…_counterexample` per excluded class;
-* copies: `C11_copy_same`, `C11_copy_independent`; `C11_flag_matches_solver` (all histories, both
-  variants: the flag `_has_sensitivities` agrees with the solver object — the repaired `copy` defect).
-
-The model follows /repo at 4fca413: `ReducedMechanisticModel` carries `_empty_sensitivities` (f18d571) and
-`set_outputs` resets it (4fca413; the behaviour before that commit is kept as `stepKeepFlag` for
-`C11_outputs_after_empty_sens_counterexample_before_4fca413` only).
+* the code as it is, **every history**: `C11_net_config` (state: `C11_net_config_state`),
+  `C11_reported_regimen_applied`, `C11_simulate_never_raises`, `C11_copy_same`, `C11_copy_independent`,
+  `C11_flag_matches_solver`, `C11_admin_rejects_missing_outputs`;
+* the net configuration is what a fresh object reaches by the canonical calls: `C11_canonical_*`;
+* before bcb3fc2: one `…_counterexample` per defect class, and `C11_legacy_net_config_partial` (the old
+  code already had the property on `WellOrdered` histories);
+* before 4fca413: `C11_outputs_after_empty_sens_counterexample_before_4fca413`.
 -/
 set_option linter.unusedSectionVars false
 set_option linter.unusedSimpArgs false
@@ -28,17 +26,17 @@ variable (b : Base)
 
 /-! ## refinement: the object machine *is* the configuration machine -/
 
-/-- One configuration call on the object that has configuration `c` (intended transitions) gives the
+/-- One configuration call on the object that has configuration `c` gives the
 object that has configuration `applyCfg c op`, and raises exactly when the configuration machine
 rejects the call.  All redundant hidden state — `_model`, the name tables, `_n_outputs`, the solver with
 its protocol and sensitivities, the flag, the wrapper's cached count and names — is a function of the
 visible configuration before and after. -/
 theorem C11_refines (c : Config) (op : Op) (h : Good b c) :
-    step b false (build b c) op = (build b (applyCfg b c op).1, (applyCfg b c op).2) :=
+    step b (build b c) op = (build b (applyCfg b c op).1, (applyCfg b c op).2) :=
   step_build b c op h
 
 theorem run_build (ops : List Op) : ∀ (c : Config), Good b c →
-    run b false (build b c) ops = build b (net b c ops) := by
+    run b (build b c) ops = build b (net b c ops) := by
   induction ops with
   | nil => intro c _; rfl
   | cons op ops ih =>
@@ -61,42 +59,97 @@ theorem initObj_eq : initObj b = build b (initCfg b) := by
   unfold initObj build init initCfg buildM
   simp [tablesOf, variantOf, length_sortNames]
 
-/-- **C11 (intended transitions), every history**: after any finite sequence of configuration calls —
+theorem C11_net_config_state (ops : List Op) :
+    run b (initObj b) ops = fresh b (net b (initCfg b) ops) := by
+  rw [initObj_eq, run_build b ops _ (good_init b)]; rfl
+
+/-- **C11, the code as it is, every history**: after any finite sequence of configuration calls —
 valid or raising, in any order, including wrapping, fixing and copying — the object *is* the freshly
 configured object of the net configuration; in particular everything observable (names, counts,
 outputs, reported regimen, and which model, protocol, sensitivities, state / constant assignment and
 logged variables a `simulate` hands to the solver) is that of the fresh object. -/
 theorem C11_net_config (ops : List Op) :
-    observe b (run b false (initObj b) ops) = observe b (fresh b (net b (initCfg b) ops)) := by
+    observe b (run b (initObj b) ops) = observe b (fresh b (net b (initCfg b) ops)) := by
   rw [initObj_eq, run_build b ops _ (good_init b)]; rfl
 
-/-! ## the code as it is -/
+/-- `set_administration` refuses a route on which a selected output does not exist (the depot's
+variables exist on the indirect route only): `ValueError`, and nothing at all is changed -/
+theorem C11_admin_rejects_missing_outputs (s : MState) (a : Admin) (hp : b.pkpd = true)
+    (hv : validAdmin b a = none) (x : String) (hx : x ∈ s.outputNames)
+    (hbad : outputCheck b (.dosed a) x ≠ none) :
+    step b ⟨s, none⟩ (.setAdmin a) = (⟨s, none⟩, some .valueError) := by
+  have hf : firstErr (outputCheck b (.dosed a)) s.outputNames ≠ none := by
+    intro h
+    exact hbad ((firstErr_none _ _).mp h x hx)
+  simp only [step, stepPlain, hp, Bool.not_true, Bool.false_eq_true, if_false, setAdminM, hv]
+  cases hfe : firstErr (outputCheck b (.dosed a)) s.outputNames with
+  | none => exact absurd hfe hf
+  | some e => rfl
+
+/-! ## "a freshly created model to which only the net configuration is applied" -/
+
+/-- the canonical calls (route, parameter names, outputs, output names, regimen, sensitivities, wrap, fix,
+sensitivities through the wrapper) are accepted by the configuration machine and reach exactly `c`, for
+every configuration satisfying `Canon` (a decidable condition on `c`: valid route, dictionaries keyed by
+the parameters / outputs, non-default displayed names distinct and not default names, outputs exist,
+regimen presupposes a route, selections expressible by displayed names). -/
+theorem C11_canonical_reaches (c : Config) (h : Canon b c) :
+    net b (initCfg b) (canonical b c) = c :=
+  canonical_reaches b c h
+
+/-- … so the object `fresh c` of the theorems above *is* a new object after those calls -/
+theorem C11_fresh_by_canonical_calls (c : Config) (h : Canon b c) :
+    run b (initObj b) (canonical b c) = fresh b c := by
+  rw [C11_net_config_state, C11_canonical_reaches b c h]
+
+/-- the structural half of `Canon` holds after **every** history (valid route, parameter dictionary keyed by
+the parameters, outputs exist, output dictionary keyed by the outputs, a regimen presupposes a route); what
+`Canon` assumes beyond this concerns displayed names only (distinct, and not default names) and the
+expressibility of the sensitivity selection / fixed values by such names -/
+theorem C11_canon_structural (ops : List Op) (hw : b.WF) :
+    Canon.adminOK b (net b (initCfg b) ops) ∧
+    (net b (initCfg b) ops).pmap.map Prod.fst = (cfgTables b (net b (initCfg b) ops)).paramNames ∧
+    firstErr (outputCheck b (variantOf (net b (initCfg b) ops).admin)) (net b (initCfg b) ops).outputs = none ∧
+    (net b (initCfg b) ops).omap.map Prod.fst = dedup (net b (initCfg b) ops).outputs ∧
+    ((net b (initCfg b) ops).regimen.isSome = true → (net b (initCfg b) ops).admin.isSome = true) := by
+  have h3 := inv3_net b ops _ (inv3_init b hw)
+  have h1 := inv_net b ops _ (inv_init_weak b)
+  exact ⟨h3.adm, h1.keys, h1.outs, h3.okeys, h3.reg⟩
+
+/-- **C11 as the property text has it**: after any history, the object equals a freshly created object
+to which the canonical calls of the net configuration are applied — whenever the net configuration
+satisfies `Canon` (evaluated by the harness on every generated history; it can fail only through
+displayed names that collide with default names or with each other across several renamings). -/
+theorem C11_net_config_by_calls (ops : List Op) (h : Canon b (net b (initCfg b) ops)) :
+    run b (initObj b) ops = run b (initObj b) (canonical b (net b (initCfg b) ops)) := by
+  rw [C11_fresh_by_canonical_calls b _ h, C11_net_config_state]
+
+/-! ## the code before bcb3fc2 -/
 
 theorem run_legacy_eq (ops : List Op) (hw : b.WF) : ∀ (h : Hist) (c : Config), Inv b h c →
-    wellOrderedFrom h ops = true → run b true (build b c) ops = run b false (build b c) ops := by
+    wellOrderedFrom h ops = true → runLegacy b (build b c) ops = run b (build b c) ops := by
   induction ops with
   | nil => intro h c _ _; rfl
   | cons op ops ih =>
     intro h c hi hwo
     simp only [wellOrderedFrom, Bool.and_eq_true] at hwo
-    simp only [run]
+    simp only [run, runLegacy]
     rw [step_legacy_eq b h c op hw hi hwo.1, step_build b c op (good_of_inv b h c hi)]
     exact ih (h.next op) _ (inv_apply b h c op hi) hwo.2
 
-/-- on well-ordered histories the code as it is takes exactly the intended steps -/
-theorem C11_legacy_eq_intended (ops : List Op) (hw : b.WF) (ho : WellOrdered ops) :
-    run b true (initObj b) ops = run b false (initObj b) ops := by
+/-- on well-ordered histories the old code took exactly the steps of the repaired one -/
+theorem C11_legacy_eq_now (ops : List Op) (hw : b.WF) (ho : WellOrdered ops) :
+    runLegacy b (initObj b) ops = run b (initObj b) ops := by
   rw [initObj_eq]
   exact run_legacy_eq b ops hw _ _ (inv_init b hw) ho
 
-/-- **C11 for the code as it is, partial**: for every model and every history in which
+/-- the code before bcb3fc2 had the property for every model and every history in which
 `set_administration` is not called after a regimen was set, a direct route is not selected after an
 indirect one and an indirect route is not selected after names were assigned (any number, order and
-validity of all other calls, any length).  The full statement `C11_net_config` with `legacy = true`
-is false: see the three counterexamples below. -/
-theorem C11_net_config_partial (ops : List Op) (hw : b.WF) (ho : WellOrdered ops) :
-    observe b (run b true (initObj b) ops) = observe b (fresh b (net b (initCfg b) ops)) := by
-  rw [C11_legacy_eq_intended b ops hw ho]; exact C11_net_config b ops
+validity of all other calls, any length); outside that class it did not: the three counterexamples. -/
+theorem C11_legacy_net_config_partial (ops : List Op) (hw : b.WF) (ho : WellOrdered ops) :
+    observe b (runLegacy b (initObj b) ops) = observe b (fresh b (net b (initCfg b) ops)) := by
+  rw [C11_legacy_eq_now b ops hw ho]; exact C11_net_config b ops
 
 /-! ### witnesses: the one-compartment PK model of chi's library -/
 
@@ -108,7 +161,8 @@ def oneComp : Base :=
 def admD : Op := .setAdmin ⟨"central", "drug_amount", true⟩
 def admI : Op := .setAdmin ⟨"central", "drug_amount", false⟩
 
-def obsLegacy (ops : List Op) : Obs := observe oneComp (run oneComp true (initObj oneComp) ops)
+def obsLegacy (ops : List Op) : Obs := observe oneComp (runLegacy oneComp (initObj oneComp) ops)
+def obsNow (ops : List Op) : Obs := observe oneComp (run oneComp (initObj oneComp) ops)
 def obsFresh (ops : List Op) : Obs := observe oneComp (fresh oneComp (net oneComp (initCfg oneComp) ops))
 def renV : Op := .setParamNames [("central.size", "V")]
 
@@ -197,20 +251,23 @@ theorem simulateO_protocol (o : Obj) (r : SimRecord) (h : simulateO b o = some r
   · cases h
   · exact simulateM_protocol b _ _ r h
 
-/-- **every history (intended transitions)**: whenever `simulate` runs, the protocol attached to the
+/-- **the code as it is, every history**: whenever `simulate` runs, the protocol attached to the
 solver is the regimen `dosing_regimen()` reports. -/
 theorem C11_reported_regimen_applied (ops : List Op) (r : SimRecord)
-    (h : (observe b (run b false (initObj b) ops)).sim = some r) :
-    r.protocol = (observe b (run b false (initObj b) ops)).regimen := by
+    (h : (observe b (run b (initObj b) ops)).sim = some r) :
+    r.protocol = (observe b (run b (initObj b) ops)).regimen := by
   rw [initObj_eq, run_build b ops _ (good_init b)] at h ⊢
   exact simulateO_protocol b _ r h
 
-/-- the code as it is: on well-ordered histories (the counterexample above is the excluded class) -/
-theorem C11_reported_regimen_applied_partial (ops : List Op) (hw : b.WF) (ho : WellOrdered ops)
-    (r : SimRecord) (h : (observe b (run b true (initObj b) ops)).sim = some r) :
-    r.protocol = (observe b (run b true (initObj b) ops)).regimen := by
-  rw [C11_legacy_eq_intended b ops hw ho] at h ⊢
-  exact C11_reported_regimen_applied b ops r h
+/-- **the code as it is, every model, every history**: `simulate` with `n_parameters()` values never
+raises — the name tables, the model the solver integrates, the selected outputs, the sensitivity flag and
+the wrapper's mask and value buffer always fit together.  (Before bcb3fc2 it raised after
+direct-after-indirect administration: `C11_direct_after_indirect_counterexample`.) -/
+theorem C11_simulate_never_raises (ops : List Op) :
+    (observe b (run b (initObj b) ops)).sim.isSome = true := by
+  rw [C11_net_config_state]
+  exact simulateO_isSome b _ (redinv_net b ops _ (redinv_init b))
+    (inv_net b ops _ (inv_init_weak b)).outs
 
 /-! ## copies -/
 
@@ -262,14 +319,14 @@ from the sensitivity request, and if the original has no sensitivities enabled t
 observationally identical. -/
 theorem C11_copy_same (c : Config) (h : Good b c) :
     let o := build b c
-    let cp := (step b false o .copy).1
+    let cp := (step b o .copy).1
     cp = build b (copyCfg c) ∧
     (observe b cp).params = (observe b o).params ∧ (observe b cp).nParams = (observe b o).nParams ∧
     (observe b cp).outputs = (observe b o).outputs ∧ (observe b cp).regimen = (observe b o).regimen ∧
     (observe b cp).hasSens = false ∧
     (observe b cp).sim = (observe b o).sim.map (fun r => { r with sens := none }) ∧
     ((observe b o).hasSens = false → observe b cp = observe b o) := by
-  have hstep : (step b false (build b c) .copy).1 = build b (copyCfg c) := by
+  have hstep : (step b (build b c) .copy).1 = build b (copyCfg c) := by
     rw [step_build b c .copy h, copyCfg_eq]
   simp only [hstep]
   refine ⟨trivial, ?_, ?_, rfl, rfl, ?_, simulateO_sens_reset b c, ?_⟩
@@ -296,23 +353,25 @@ theorem C11_copy_same (c : Config) (h : Good b c) :
         | some x => simp at h2
     rw [hc]
 
-/-- the same for the code as it is, at any point of a well-ordered history -/
-theorem C11_copy_same_partial (ops : List Op) (hw : b.WF) (ho : WellOrdered ops) :
-    (step b true (run b true (initObj b) ops) .copy).1
-      = build b (copyCfg (net b (initCfg b) ops)) := by
-  have hg : Good b (net b (initCfg b) ops) := by
-    have : ∀ (ops : List Op) (c : Config), Good b c → Good b (net b c ops) := by
-      intro ops
-      induction ops with
-      | nil => intro c h; exact h
-      | cons op ops ih => intro c h; exact ih _ (good_apply b c op h)
-    exact this ops _ (good_init b)
-  rw [C11_legacy_eq_intended b ops hw ho, initObj_eq, run_build b ops _ (good_init b)]
-  have : step b true (build b (net b (initCfg b) ops)) .copy
-      = step b false (build b (net b (initCfg b) ops)) .copy := by
-    cases hr : (net b (initCfg b) ops).red <;> simp [build, hr, step, stepPlain]
-  rw [this]
-  exact (C11_copy_same b _ hg).1
+theorem good_net (ops : List Op) : ∀ (c : Config), Good b c → Good b (net b c ops) := by
+  induction ops with
+  | nil => intro c h; exact h
+  | cons op ops ih => intro c h; exact ih _ (good_apply b c op h)
+
+/-- at any point of **any history** of the code as it is: the copy is the fresh object of the net
+configuration with the sensitivity setting reset, and it makes exactly the original's solver calls apart
+from the sensitivity request -/
+theorem C11_copy_same_history (ops : List Op) :
+    let o := run b (initObj b) ops
+    let cp := (step b o .copy).1
+    cp = fresh b (copyCfg (net b (initCfg b) ops)) ∧
+    (observe b cp).params = (observe b o).params ∧ (observe b cp).nParams = (observe b o).nParams ∧
+    (observe b cp).outputs = (observe b o).outputs ∧ (observe b cp).regimen = (observe b o).regimen ∧
+    (observe b cp).hasSens = false ∧
+    (observe b cp).sim = (observe b o).sim.map (fun r => { r with sens := none }) ∧
+    ((observe b o).hasSens = false → observe b cp = observe b o) := by
+  simp only [C11_net_config_state]
+  exact C11_copy_same b _ (good_net b ops _ (good_init b))
 
 /-! ### independence
 
@@ -325,22 +384,22 @@ final state of each depends only on the calls addressed to it. -/
 inductive Who | orig | copy
   deriving DecidableEq, Repr
 
-def stepW (legacy : Bool) (w : Obj × Obj) (x : Who × Op) : Obj × Obj :=
+def stepW (w : Obj × Obj) (x : Who × Op) : Obj × Obj :=
   match x.1 with
-  | .orig => ((step b legacy w.1 x.2).1, w.2)
-  | .copy => (w.1, (step b legacy w.2 x.2).1)
+  | .orig => ((step b w.1 x.2).1, w.2)
+  | .copy => (w.1, (step b w.2 x.2).1)
 
-def runW (legacy : Bool) : Obj × Obj → List (Who × Op) → Obj × Obj
+def runW : Obj × Obj → List (Who × Op) → Obj × Obj
   | w, [] => w
-  | w, x :: xs => runW legacy (stepW b legacy w x) xs
+  | w, x :: xs => runW (stepW b w x) xs
 
 def callsTo (who : Who) (xs : List (Who × Op)) : List Op :=
   (xs.filter (fun x => x.1 = who)).map Prod.snd
 
-/-- neither object is affected by later calls on the other (both variants, every interleaving) -/
-theorem C11_copy_independent (legacy : Bool) (o : Obj) (xs : List (Who × Op)) :
-    let cp := (step b legacy o .copy).1
-    runW b legacy (o, cp) xs = (run b legacy o (callsTo .orig xs), run b legacy cp (callsTo .copy xs)) := by
+/-- neither object is affected by later calls on the other (every interleaving) -/
+theorem C11_copy_independent (o : Obj) (xs : List (Who × Op)) :
+    let cp := (step b o .copy).1
+    runW b (o, cp) xs = (run b o (callsTo .orig xs), run b cp (callsTo .copy xs)) := by
   intro cp
   generalize cp = o2
   induction xs generalizing o o2 with
@@ -367,11 +426,11 @@ theorem flag_setOutputsM (s : MState) (outs) (h : s.hasSens = s.sim.sens.isSome)
   · exact flag_enableSensM _ _ _ h
 
 theorem flag_setAdmin (legacy : Bool) (s : MState) (a) (h : s.hasSens = s.sim.sens.isSome) :
-    (if legacy then setAdminLegacy b s a else setAdminIntended b s a).1.hasSens
-      = (if legacy then setAdminLegacy b s a else setAdminIntended b s a).1.sim.sens.isSome := by
+    (if legacy then setAdminLegacy b s a else setAdminM b s a).1.hasSens
+      = (if legacy then setAdminLegacy b s a else setAdminM b s a).1.sim.sens.isSome := by
   cases legacy
   · simp only [Bool.false_eq_true, if_false]
-    unfold setAdminIntended
+    unfold setAdminM
     split
     · exact h
     · split
@@ -391,7 +450,7 @@ theorem flag_setAdmin (legacy : Bool) (s : MState) (a) (h : s.hasSens = s.sim.se
         | some e => exact this
         | none => rfl
 
-theorem flag_step (legacy : Bool) (o : Obj) (op : Op) (h : FlagOK o) : FlagOK (step b legacy o op).1 := by
+theorem flag_step (o : Obj) (op : Op) (h : FlagOK o) : FlagOK (step b o op).1 := by
   unfold FlagOK at *
   unfold step
   cases hr : o.r with
@@ -402,7 +461,6 @@ theorem flag_step (legacy : Bool) (o : Obj) (op : Op) (h : FlagOK o) : FlagOK (s
       simp only [stepPlain]
       split_ifs
       · exact h
-      · exact flag_setAdmin b true o.m a h
       · exact flag_setAdmin b false o.m a h
     | setRegimen r =>
       simp only [stepPlain, setRegimenM]
@@ -445,16 +503,44 @@ theorem flag_step (legacy : Bool) (o : Obj) (op : Op) (h : FlagOK o) : FlagOK (s
       · exact h
     | copy => rfl
 
-/-- **all histories, both variants**: the flag `_has_sensitivities` equals "the solver was built with
-sensitivities", so `simulate` never fails to unpack the solver's result (before the fix `copy` broke
-this: flag copied, solver rebuilt without). -/
-theorem C11_flag_matches_solver (legacy : Bool) (ops : List Op) :
-    FlagOK (run b legacy (initObj b) ops) := by
-  have : ∀ (ops : List Op) (o : Obj), FlagOK o → FlagOK (run b legacy o ops) := by
+theorem flag_stepLegacy (o : Obj) (op : Op) (h : FlagOK o) : FlagOK (stepLegacy b o op).1 := by
+  cases op with
+  | setAdmin a =>
+    cases hr : o.r with
+    | none =>
+      simp only [stepLegacy, hr]
+      split_ifs
+      · exact h
+      · exact flag_setAdmin b true o.m a h
+    | some r =>
+      have : stepLegacy b o (.setAdmin a) = step b o (.setAdmin a) := by simp [stepLegacy, hr]
+      rw [this]; exact flag_step b o _ h
+  | _ =>
+    first
+      | (have : ∀ op', (∀ a, op' ≠ Op.setAdmin a) → stepLegacy b o op' = step b o op' := by
+           intro op' hne
+           unfold stepLegacy
+           cases o.r <;> cases op' <;> first | rfl | exact absurd rfl (hne _)
+         rw [this _ (by intro a; simp)]; exact flag_step b o _ h)
+
+/-- **all histories**: the flag `_has_sensitivities` equals "the solver was built with sensitivities", so
+`simulate` never fails to unpack the solver's result (before 17bee13 `copy` broke this: flag copied,
+solver rebuilt without). -/
+theorem C11_flag_matches_solver (ops : List Op) : FlagOK (run b (initObj b) ops) := by
+  have : ∀ (ops : List Op) (o : Obj), FlagOK o → FlagOK (run b o ops) := by
     intro ops
     induction ops with
     | nil => intro o h; exact h
-    | cons op ops ih => intro o h; exact ih _ (flag_step b legacy o op h)
+    | cons op ops ih => intro o h; exact ih _ (flag_step b o op h)
+  exact this ops _ rfl
+
+/-- the same for the machine before bcb3fc2 (its defects were elsewhere) -/
+theorem C11_flag_matches_solver_legacy (ops : List Op) : FlagOK (runLegacy b (initObj b) ops) := by
+  have : ∀ (ops : List Op) (o : Obj), FlagOK o → FlagOK (runLegacy b o ops) := by
+    intro ops
+    induction ops with
+    | nil => intro o h; exact h
+    | cons op ops ih => intro o h; exact ih _ (flag_stepLegacy b o op h)
   exact this ops _ rfl
 
 end ChiModel.MechConfig
